@@ -41,7 +41,10 @@ def replay_real(cell, cex):
     sweep = cell.get('replay_sweep') or {}
     runs = [dict(cex)]
     for name, values in sweep.items():
-        runs = [dict(r, **{name: v}) for r in runs for v in values]
+        if name in cex:
+            runs = [dict(r, **{name: v}) for r in runs for v in values]
+    if sweep:
+        runs = [dict(cex)] + [r for r in runs if r != cex]  # the solver's own values first
     for kw in runs:
         r = concrete(cell, kw, cell.get('replay_mode', 'real'))
         if r.get('result') is False:
